@@ -87,6 +87,8 @@ def tagged_policy(key, tag, bad=None, fixed_desc=False, empty_elem=False, ctx_ru
     subjects = ['s', ''] if empty_elem else ['s']
     if no_resources and bad != 'unbalanced_element':
         resources = []                    # an empty definition field is legal
+    if bad == 'surrogate_child':
+        subjects = subjects + ['x\udce9']  # a lone surrogate: the driver cannot bind it
     context = None
     if ctx_rule:
         from vakt.rules.operator import Eq
@@ -99,7 +101,9 @@ def bad_kind(backend, op):
     if backend == 'memory':
         return 'unhashable_uid'
     if backend == 'sqlite':
-        return 'dict_description' if op[2] % 2 else 'unbalanced_element'
+        # fails when the parent row is bound / while the rows are being built / when a CHILD row is bound (the parent
+        # row's INSERT has gone through by then: only a rollback removes it)
+        return ('dict_description', 'unbalanced_element', 'surrogate_child')[op[2] % 3]
     if backend == 'mongo':
         return 'unbalanced_element'
     if backend == 'redis_pickle':
@@ -198,6 +202,10 @@ def do_op(st, backend, op):
             return 'list:' + render_list(list(st.get_all(op[1], op[2])))
         if kind == 'retrieve_all':
             return 'list:' + render_list(list(st.retrieve_all(op[1])))
+        if kind == 'find':
+            from vakt.guard import Inquiry
+            found = list(st.find_for_inquiry(Inquiry(subject='s', resource='r', action='a1'), None))
+            return 'find:' + render_list(sorted(found, key=lambda p: key_of(p.uid)))
     except PolicyExistsError:
         if (kind == 'add' and not op[3]) or kind == 'readd':
             return 'exists'
@@ -229,6 +237,9 @@ def e_op(op):
         return '(GetAll %s %s)' % (e_Z(op[1]), e_Z(op[2]))
     if kind == 'retrieve_all':
         return '(RetrieveAll %s)' % e_Z(op[1])
+    if kind == 'find':
+        # candidate search without a checker: everything the store holds (shown key-sorted, see RunC08.show_find)
+        return '(RetrieveAll 2000)'
     raise ValueError(op)
 
 
